@@ -219,4 +219,55 @@ def rule_S5(chk, lib):
                         "depends on the subgrid layout and on the task order", function=fn["full"],
                         construct="reads accumulated state")
             chk.note("S5 %s: %d reads of cell state examined in %s" % (phase, len(reads), fn["name"]))
+        # (c) the sweep functions themselves (the task bodies of the phase): whatever they write directly into the cell
+        # states, outside the face operations, to a member the phase accumulates into must be an accumulation too - a sweep
+        # that *resets* an accumulator wipes what a sweep scheduled before it has deposited
+        sweeps = [d for d in lib.decls if d["kind"] == "function" and d.get("body") is not None and not d.get("dependent") and
+                  d.get("cls") == "HydroDensitySubGrid" and d["name"].endswith("%s_sweep" % phase)]
+        seen_sw = set()
+        nsw = 0
+        for sw in sweeps:
+            if sw["full"] in seen_sw:
+                continue
+            seen_sw.add(sw["full"])
+            nsw += 1
+            chk.analysed(function=sw["full"])
+            bad = []
+            for st in C.walk_stmt(sw["body"]):
+                lhs = op = None
+                if st.get("k") == "Bin" and (st.get("op") == "=" or st.get("op") in ("*=", "/=")):
+                    lhs, op = st["a"], st["op"]
+                elif st.get("k") == "Call" and st.get("op") in ("=", "*=", "/=") and st.get("obj") is not None and st.get("a"):
+                    lhs, op = st["obj"], st["op"]
+                if lhs is None:
+                    continue
+                # the member exposed by the written lvalue: _hydro_variables[i].accessor(k)[c] or a limiter array member
+                e = C.strip_casts(lhs)
+                exposed = None
+                while e is not None:
+                    k_ = e.get("k")
+                    if k_ == "Idx":
+                        m_ = C.member_name(e["a"])
+                        if m_ and "limiter" in m_:
+                            exposed = {m_}
+                            break
+                        e = C.strip_casts(e["a"])
+                    elif k_ == "Call" and e.get("op") == "[]" and e.get("obj") is not None:
+                        e = C.strip_casts(e["obj"])
+                    elif k_ == "Call" and e.get("obj") is not None and e.get("cls") == "HydroVariables":
+                        exposed = acc.get(e.get("n"), set())
+                        break
+                    else:
+                        break
+                if exposed and (exposed & members):
+                    bad.append((st, sorted(exposed & members)))
+            n += 1
+            chk.require(not bad, "S5", "%s phase, %s: the sweep itself only accumulates into what the phase accumulates" %
+                        (phase, sw["name"]), where(bad[0][0] if bad else sw, sw),
+                        "; ".join("line %s `%s` overwrites %s" % (b[0].get("l"), C.pretty(b[0])[:60], b[1]) for b in bad[:3]) +
+                        ": the task graph does not order the sweeps of one phase that touch a cell, so a sweep scheduled earlier "
+                        "loses what it has added there (its partner cell keeps its half: the exchange no longer cancels)",
+                        function=sw["full"], construct="sweep overwrites accumulator")
+        if nsw < 3:
+            raise AnalysisBroken("S5: fewer than three %s sweeps of HydroDensitySubGrid found" % phase)
     return n
